@@ -25,7 +25,16 @@ CONFIG = dict(
              'case (all streams) also has the identity table of the call judged: same merged index <=> connected by shared names / e-mails, '
              'merged description = union of the parts, by an independent union-find in the driver (every size) and by the extracted oracles '
              'of C16 mtotal_okb / mcomponents_okb / munion_okb (always up to 12 identities, sampled up to 44), inside the domain "every part in '
-             'at most one entry of a list". Non-trivial = both results have developers (and ticks / files); distinct = distinct input.',
+             'at most one entry of a list". Chained merges (round 3, harness/cmd/c18/chain.go, case field (chain L|R|LR|V), kinds ch-devs-*, ch-couples-*, ch-burndown-*, '
+             'ch-burndown-extend-*): three or four results combined as (A+B)+C, A+(B+C), (A+B)+(C+D) and A+B then A+C with the same object A, every intermediate '
+             'result kept in memory and handed to the next MergeResults call as it is (summary = c1.Copy() merged with c2, as cmd/hercules/combine.go does); every call '
+             'is judged like a single pair against the plain-data pictures of its two operands taken BEFORE the call (all oracles, model replayed per call), and '
+             '(inputs a b others) records whether the first argument, the second argument and every other live result (with its summary) still has the same full '
+             'serialisation after the call: a MergeResults that changes an argument or an earlier result is a PROPFAIL; literal identities, developer lists that are '
+             'subsets of one pool / the previous list permuted / all new, for burndown one bit per developer history (2^(5k+i)) and operands without interaction '
+             'matrix only in second-argument positions (the extend branch), ch-burndown-extend-*: operands with matrices, then one without matrix that brings new '
+             'developers.  The interaction rows of the extend branch are judged by pm_rows_b as well (r2 without matrix = zeros).  '
+             'Non-trivial = both results have developers (and ticks / files), every chained case; distinct = distinct input.',
         exhaustive_note='identity lists: all 15 x 15 pairs of partial partitions of {ann, bob, a@x.io} (second list also reversed), each with '
                         'generated data, for the three analyses',
         assumptions=[
